@@ -30,6 +30,10 @@ func runC03(c *Ctx) {
 	c02RecordDescribes(c, "C03.7")
 	c02RecoveryEnds(c, "C03.8")
 	ruleLogReader(c, "C03.9")
+	ruleRecoveryVisitsAll(c, "C03.10")
+	ruleSentinelWrapped(c, "C03.12", "storage")
+	ruleStampHasRecord(c, "C03.13")
+	ruleErrorsNotDropped(c, "C03.11", "storage.(*BTree).insert", "storage.(*RelationService).Insert")
 }
 
 func c03Framing(c *Ctx, rule string) {
